@@ -37,7 +37,9 @@ def is_rejection(exc):
 
 
 def term(label):
-    return data.term_from_key(label)
+    # the simple term of a key as the data model documents it, built here so that no library-side cache or normalisation of
+    # data.term_from_key can leak into the expected values
+    return data.Term(label=label, name="soundevent:%s" % label, definition="Unknown")
 
 
 def recording(name="r", path="/data/r.wav", duration=10.0, samplerate=8000, channels=1, **kw):
